@@ -2,8 +2,10 @@
 """prompt for an independent audit agent: find violations of the given properties on the UNCHANGED tree"""
 import json, sys
 wt = sys.argv[1]; pids = sys.argv[2:]
+round2 = pids and pids[0] == "round2"
+if round2: pids = pids[1:]
 props = {json.loads(l)['id']: json.loads(l) for l in open('/verif/properties.jsonl')}
-out = "/tmp/auditout/" + "-".join(pids)
+out = ("/tmp/auditout2/" if round2 else "/tmp/auditout/") + "-".join(pids)
 txt = []
 for pid in pids:
     p = props[pid]
@@ -15,6 +17,8 @@ anchored in: {', '.join(p['anchors']['files'])}
 mechanisms: {'; '.join(m['name'] + ' (' + m['where'] + ')' for m in p['anchors']['mechanism'])}
 observable at: {', '.join(p['anchors'].get('observe_at') or [])}
 """)
+KNOWN1 = """Already known and to be skipped (do not spend time re-finding these): day counts above 910674 (dates from 4094-05-05 given as ldn/jdn/mdn/epoch) print 0000-00-00; ddiff counts years/months in the calendar the FORMAT implies rather than the operand's; ddiff -f %db from a weekend day back to a weekday is 0b (antisymmetric reading pinned by tests); %dB prints a control byte; year+%U/%W+weekday formats read back a week off; %Oy ignores the century of --base; real-second (%rS, +Nrs) results wrap for spans >= 2^31 s, are not leap aware for @epoch / ISO-week / year-day held values; a single line longer than 16 MiB is split in -S mode; CRLF is written back as LF in -S mode; bizda-held values print business-day based %j."""
+KNOWN2 = """This is a SECOND audit round: `git log --grep '^fix:' --stat` in the worktree lists about 140 repairs made after a first round - do not re-test what they repaired, but do look near them (a repair may be incomplete, cover one representation and not its sibling, one tool and not the others, argument mode and not stdin mode) and in places no repair touched. Already known and to be skipped (do not spend time re-finding these): day counts above 910674 (dates from 4094-05-05 on, given as or computed through ldn/jdn/mdn/epoch/day counts) print 0000-00-00 (pinned by the test suite); Roman numeral specifiers print nothing unless the value is held as ymd; conversion TO the bizda calendar by dconv -f bizda of non-business days; ddiff counts years/months/weeks in the calendar the FORMAT implies rather than the operand's, and month/year formats with %db print calendar days labelled as business days; ddiff -f %db from a weekend day back to a weekday (antisymmetric reading pinned by tests); %rS next to months, years or business days in one ddiff format is not leap aware; real-second (%rS, +Nrs) results wrap for spans >= 2^31 s; the TAI/GPS label of an inserted second does not read back as itself; a bizda-held date-time plus seconds landing on a weekend, and dround of bizda-held values whose carry day is a weekend; a ymcw Sunday spelt 00 skips the clamp after a month step (pinned by test dseq.52); %dB prints a control byte; year+%U/%W+weekday formats read back a week off around New Year; %Oy ignores the century; ISO year %G and calendar year %Y (or two week counts) in ONE format share a slot; date-TIMES printed as jdn/ldn/mdn day numbers do not read back exactly; %s next to %N does not read back; a single line longer than 16 MiB is split in -S mode; CRLF is written back as LF in -S mode; with two -i formats a digits-only format in front of a match of the other is skipped; bizda-held values print business-day based %j."""
 print(f"""You are given a scratch git worktree of the C project hroptatyr/dateutils at {wt} (configured and built in-tree with autotools; binaries in {wt}/src, library in {wt}/lib, documentation in {wt}/info/*.texi and `<tool> --help`; if `make -j8` re-runs configure or src/config.h looks empty run `./config.status --recheck && ./config.status` serially once). Work ONLY inside {wt} and {out}; do not read or touch /verif or /repo; never use `git stash`; do not modify the sources (this is an audit of the tree as it is).
 
 The software is supposed to satisfy the following semantic properties:
@@ -22,6 +26,6 @@ The software is supposed to satisfy the following semantic properties:
 """ + "\n".join(txt) + f"""
 Task: act as an adversarial auditor. Find concrete inputs (command lines with the built binaries, stdin contents, small C programs against lib/libdut.a and src/libdutio.a if needed) on which the CURRENT, unmodified tree VIOLATES one of these properties as stated. Read the anchored code looking for unhandled cases, boundary conditions, magic constants, sticky state, option interactions, unusual but documented input spellings, large counts, range ends (years 1601 and 4095), sequences of several arguments/durations/specs in one invocation, and disagreement between two code paths that should agree; then confirm each suspicion by running it. Use brute-force cross-checks where cheap (python3 datetime/calendar is available as an independent oracle for the Gregorian/ISO calendar between years 1 and 9999; GNU date for epoch arithmetic).
 
-Rules: a finding counts only if (a) the input is within what the property covers (valid dates in 1601..4095, documented options and formats), (b) you ran it and saw the wrong behaviour, (c) you can say what the property demands instead and why. Things that are merely undocumented, cosmetic (padding, Sunday as 0 or 7), or documented limitations are not findings - list them separately as "borderline". Already known and to be skipped (do not spend time re-finding these): day counts above 910674 (dates from 4094-05-05 given as ldn/jdn/mdn/epoch) print 0000-00-00; ddiff counts years/months in the calendar the FORMAT implies rather than the operand's; ddiff -f %db from a weekend day back to a weekday is 0b (antisymmetric reading pinned by tests); %dB prints a control byte; year+%U/%W+weekday formats read back a week off; %Oy ignores the century of --base; real-second (%rS, +Nrs) results wrap for spans >= 2^31 s, are not leap aware for @epoch / ISO-week / year-day held values; a single line longer than 16 MiB is split in -S mode; CRLF is written back as LF in -S mode; bizda-held values print business-day based %j.
+Rules: a finding counts only if (a) the input is within what the property covers (valid dates in 1601..4095, documented options and formats), (b) you ran it and saw the wrong behaviour, (c) you can say what the property demands instead and why. Things that are merely undocumented, cosmetic (padding, Sunday as 0 or 7), or documented limitations are not findings - list them separately as "borderline". """ + (KNOWN2 if round2 else KNOWN1) + f"""
 
 Deliverable: write {out}/findings.md with one section per finding: property id, exact reproduction (commands and observed output), expected by the property, suspected root cause (file:function), how you cross-checked; then a "borderline" list. Aim for breadth over polish: spend your effort on finding as many DISTINCT genuine violations as you can (different root causes), up to about 10; stop when an hour of looking yields nothing new. Final message: the list of findings, one line each.""")
